@@ -1,5 +1,5 @@
 (** Request decoder for the C11 model: [k; name1; ty1; ...; namek; tyk (most recent first); t1; t2] (type code of TyCode.v)
-    -> four bits: compat for (treatVoidAsAny, ignoreQualifier) = (0,0) (0,1) (1,0) (1,1) *)
+    -> five bits: compat for (treatVoidAsAny, ignoreQualifier) = (0,0) (0,1) (1,0) (1,1), then assignable (no null constant) *)
 From Coq Require Import ZArith List Bool NArith.
 From PV Require Import C12Model C11Model TyCode.
 Import ListNotations.
@@ -14,7 +14,8 @@ Definition run (req : list Z) : list Z :=
           | Some (t1, r2) =>
               match dec (length r2) r2 with
               | Some (t2, _) => let d := denv e in
-                                [bit (compat d false false t1 t2); bit (compat d false true t1 t2); bit (compat d true false t1 t2); bit (compat d true true t1 t2)]
+                                [bit (compat d false false t1 t2); bit (compat d false true t1 t2); bit (compat d true false t1 t2); bit (compat d true true t1 t2);
+                                 bit (assignable (den d t1) (den d t2) false)]
               | None => [-2]
               end
           | None => [-2]
